@@ -86,6 +86,7 @@ func (v *Verifier) reset(fi *FuncInfo, con *Contract) {
 	v.topFrame = nil
 	v.frameTargets = nil
 	v.nonNegSeen = nil
+	v.typeCodes = nil
 	v.pathSeq = map[string]int{}
 	v.siteOrdByKey = map[string]int{}
 	v.siteCount = map[string]int{}
@@ -283,6 +284,32 @@ func (v *Verifier) verifyCase(fi *FuncInfo, con *Contract, rep *FuncReport, case
 		}
 	}
 	v.prescanBoxesInput(fr, st, fi, con, inputSlices)
+	// record the initial values of the inputs for counterexample replay
+	{
+		ri := &ReplayInfo{fi: fi, eng: v.eng, v: v}
+		eng := v.eng
+		ri.h0 = func(key string, s *Sort) *Term { return eng.C.Var("H0$"+key, s) }
+		add := func(o *types.Var, isRecv bool) {
+			cell := fr.vars[o]
+			if cell == nil {
+				return
+			}
+			p := ReplayParam{Name: cell.Name, Type: o.Type(), Val: st.vals[cell], IsRecv: isRecv}
+			if pv, ok := p.Val.(PtrVal); ok && pv.Loc != nil {
+				if vl, ok := pv.Loc.(VarLoc); ok {
+					p.Pointee = st.vals[vl.C]
+				}
+			}
+			ri.params = append(ri.params, p)
+		}
+		if sig.Recv() != nil {
+			add(sig.Recv(), true)
+		}
+		for i := 0; i < sig.Params().Len(); i++ {
+			add(sig.Params().At(i), false)
+		}
+		v.curReplay = ri
+	}
 	// case split: assume the case condition; "x == const" on an input symbol is substituted
 	if caseIdx >= 0 {
 		subst := map[*Term]*Term{}
@@ -348,10 +375,18 @@ func (v *Verifier) verifyCase(fi *FuncInfo, con *Contract, rep *FuncReport, case
 		}
 		for _, cl := range con.Ensures {
 			t := v.asBool(v.evalSpec(fr, o, cl.Expr), fi.Decl.Pos())
+			v.curClauseObj = cl
 			v.obligeNamed(fr, o, fmt.Sprintf("ensures%d", cl.Ord), fi.Decl.Pos(), t, "postcondition: "+cl.Text)
+			v.curClauseObj = nil
 		}
 		v.checkFrame(fr, o, con)
 		fr.resultV = nil
+	}
+	if v.curReplay != nil {
+		v.curReplay.codes = map[string]int{}
+		for k, c := range v.typeCodes {
+			v.curReplay.codes[k] = c
+		}
 	}
 	rep.obls = append(rep.obls, v.obls...)
 	rep.Unrolled = appendUniq(rep.Unrolled, v.unrolled)
@@ -775,6 +810,7 @@ func dischargeAll(reps []*FuncReport, timeoutS int, par int, keepDir string) {
 		}
 		script := j.o.ctx.Script(assume, j.o.Goal, "", true)
 		j.o.Script = script
+		j.o.RelaxedScript = relaxedScript
 		base := sanitize(fmt.Sprintf("%s.p%d", j.o.Name, j.o.Path))
 		if len(base) > 150 {
 			base = base[:150]
